@@ -76,6 +76,9 @@ impl<'de, T> Visitor<'de> for TooDeeVisitor<T>
         if product != data.len() {
             return Err(de::Error::invalid_length(product, &"dimensions to match array length"))
         }
+        if (num_cols == 0) != (num_rows == 0) {
+            return Err(de::Error::invalid_value(Unexpected::Other("dimensions"), &"both or neither dimension to be zero"))
+        }
         Ok(TooDee::from_vec(num_cols, num_rows, data))
     }
 }
